@@ -366,7 +366,9 @@ def onEv1 (s : Sim) (line : Nat) (ws : List String) : Sim :=
           s.fail "c12" line s!"wrong-arguments (call {tag} sent nseg={c.nseg} by={c.by_})" else s
       let s := if s.fl != "const" && !s.active.isEmpty then
           s.fail "c12" line s!"overlapping-executions (call {tag} starts while {s.active} executes)" else s
-      let s := if s.fl == "mut" && seq != s.lastSeq + 1 then
+      -- (strictly increasing; a gap is an invocation whose caller was gone before its first poll: since the repair
+      -- of F-RFN-1 the provider drops such a future without ever polling it)
+      let s := if s.fl == "mut" && seq ≤ s.lastSeq then
           s.fail "c12" line s!"closure-invocation-order (seq {seq} after {s.lastSeq})" else s
       let s := if s.fl == "once" && s.nexecs ≥ 1 then s.fail "c12" line s!"once-executed-again (call {tag})" else s
       let s := if s.fl == "const" && s.active.length + 1 > s.limit then
